@@ -34,11 +34,17 @@ def base_program(rng, x, variant):
     dts = [("f32", "u8"), ("i16", "u1"), ("f64", "u4")][variant % 3]
     ops = [{"op": "wopen"}, {"op": "source", "id": 1, "name": ["lit", "src"], "vendor": ["lit", "v"], "model": None, "version": ["lit", "1"], "serial": ["lit", "sn"]},
            {"op": "userdata", "meta": 7, "stype": 2, "data": ["lit", "hello"]}]
-    n0 = {"f32": 400, "i16": 700, "f64": 300}[dts[0]]
-    n1 = {"u8": 800, "u1": 6000, "u4": 1600}[dts[1]]
+    # lengths that end in a partial block holding fewer samples than one summary entry: the length is then known
+    # from the last DATA chunk only
+    n0 = {"f32": 403, "i16": 707, "f64": 301}[dts[0]]
+    n1 = {"u8": 811, "u1": 6007, "u4": 1603}[dts[1]]
     for g, dt, n in ((1, dts[0], n0), (2, dts[1], n1)):
-        ops.append({"op": "signal", "id": g, "src": 1, "dt": dt, "rate": 1000, "spd": 0 if progs.WIDTH[dt] <= 8 else 64, "sdf": 16 if progs.WIDTH[dt] > 8 else 0,
+        ops.append({"op": "signal", "id": g, "src": 1, "dt": dt, "rate": 1000, "spd": (64 if dt == "u8" else 0) if progs.WIDTH[dt] <= 8 else 64,
+                    "sdf": 16 if progs.WIDTH[dt] > 8 else (32 if dt == "u8" else 0),
                     "eps": 10, "sumdf": 10, "adf": 10, "udf": 10, "name": ["lit", "sig%d" % g], "units": ["lit", "u"]})
+    # the u8 signal has a constant stretch over whole blocks: those blocks exist only as summary entries and are
+    # reconstructed by the reader from the level-1 summary it has cached
+    seg2 = [(384, None), (576, ["const", 7]), (n1, None)] if dts[1] == "u8" else []
     i0 = i1 = 0
     k = 0
     last_utc = -1
@@ -47,7 +53,14 @@ def base_program(rng, x, variant):
             m = min(n0 - i0, rng.choice([37, 64, 100]))
             ops.append({"op": "fsr", "sig": 1, "id": i0, "n": m})
             i0 += m
-        if i1 < n1:
+        if i1 < n1 and seg2:
+            end, gen = seg2.pop(0)
+            op = {"op": "fsr", "sig": 2, "id": i1, "n": end - i1}
+            if gen:
+                op["gen"] = gen
+            ops.append(op)
+            i1 = end
+        elif i1 < n1:
             m = min(n1 - i1, rng.choice([333, 512, 1000]))
             ops.append({"op": "fsr", "sig": 2, "id": i1, "n": m})
             i1 += m
